@@ -1,6 +1,7 @@
 import Fips204.Gen.Leaks
 import Fips204.Lemmas.Kernels2
 import Fips204.Impl.Api
+import Fips204.Lemmas.Shapes
 /-!
 # C14 — secret-independent execution in constant-time test mode
 
@@ -82,5 +83,36 @@ theorem ctest_attempt_never_rejects (m : Mode) (O : Oracles) (p : ParamSet) (sk 
   repeat (split at h; · simp at h)
   simp only [if_true, pure, Except.pure, Except.ok.injEq] at h
   subst h; rfl
+
+/-- in constant-time test mode the signing loop always returns after exactly one pass, whatever the key, the message and the
+    random value are: the number of iterations (the one secret-dependent quantity of Algorithm 7's control flow) is constant -/
+theorem ctest_sign_is_single_pass (m : Mode) (O : Oracles) (p : ParamSet) (fuel : Nat) (sk : PrivateKey)
+    (msg ctx oid phm rnd : List Nat) (nist : Bool) (out : SignOut)
+    (h : signInternal m O true p fuel sk msg ctx oid phm rnd nist = .ok out) : out.iters = 1 := by
+  unfold signInternal at h
+  obtain ⟨aHat, _, h⟩ := bind_ok_inv h
+  simp only [] at h
+  obtain ⟨r, hl, h⟩ := bind_ok_inv h
+  obtain ⟨cT, z, hh, it⟩ := r
+  simp only [] at h
+  obtain ⟨_, _, h⟩ := bind_ok_inv h
+  obtain ⟨_, _, h⟩ := bind_ok_inv h
+  have e := ok_inj h
+  rw [← e]
+  show it = 1
+  cases fuel with
+  | zero => unfold signLoop at hl; cases hl
+  | succ fuel =>
+    unfold signLoop at hl
+    obtain ⟨a, ha, hl⟩ := bind_ok_inv hl
+    have hs := ctest_attempt_never_rejects m O p sk aHat _ _ 0 a ha
+    cases a with
+    | none => simp at hs
+    | some t =>
+      obtain ⟨c', z', h'⟩ := t
+      simp only [pure, Except.pure] at hl
+      have e2 := ok_inj hl
+      simp only [Prod.mk.injEq] at e2
+      omega
 
 end Fips204.Props.C14
